@@ -842,10 +842,23 @@ def main():
         except (ParseError, ValueError, AttributeError, KeyError, IndexError) as e:
             errors.append("%s: %s: %s" % (fn.__name__, type(e).__name__, e))
     degraded = []
+    # positional literal lists (the model addresses the pieces of to_str()/path() by position): when a rewrite assembles the
+    # same text from differently cut pieces (other count, other placeholder pattern) the positions mean nothing any more --
+    # keep the authored pieces (stale: the tie for them is then the correspondence check on the rendered documents alone).
+    # A changed literal with the same cut is translated as usual.
+    try:
+        base0 = json.load(open(os.path.join(VERIF, "tools", "tables_baseline.json")))
+        cut = lambda l: [re.findall(r"\{[^}]*\}", x) for x in l]  # noqa
+        for k in ("to_str", "path"):
+            if k in S and k in base0["strings"] and cut(S[k]) != cut(base0["strings"][k]) and "--write-baseline" not in sys.argv:
+                S[k] = base0["strings"][k]
+                degraded.append("stale:" + k)
+    except (OSError, ValueError, KeyError):
+        pass
     if errors and "--dump" in sys.argv:
         try:
             d = json.load(open(sys.argv[sys.argv.index("--dump") + 1]))
-            degraded = fallback_from_dump(T, d)
+            degraded += fallback_from_dump(T, d)
         except Exception as e:  # noqa
             errors.append("fallback: %s" % e)
     if errors and "--dump" in sys.argv:
@@ -873,7 +886,7 @@ def main():
     with open(os.path.join(WORK, "tables_parsed.json"), "w") as f:
         json.dump({"tables": T, "strings": S, "purity": findings, "errors": errors, "degraded": degraded}, f, indent=0, sort_keys=True)
     if degraded:
-        print("TRANSLATOR-DEGRADED items taken from the extensional dump: %s" % ", ".join(degraded))
+        print("TRANSLATOR-DEGRADED items taken from the extensional dump (or, stale:, from the authored baseline): %s" % ", ".join(degraded))
     if errors:
         for e in errors:
             print("TRANSLATOR-%s %s" % ("NOTE" if degraded else "ERROR", e))
